@@ -25,6 +25,9 @@ KEEP_PREFIX = 1
 REPO = os.environ.get("VERIF_REPO", os.path.normpath(os.path.join(os.path.dirname(os.path.abspath(__file__)), "..", "..", "repo")))
 
 
+_KADC = "src/protocol/libp2p/kademlia/config.rs"
+
+
 def _const(rel, rx, fallback):
     """An integer constant of the Rust source (so that the oracle follows a legitimate change of the constant)."""
     try:
@@ -38,8 +41,41 @@ def _const(rel, rx, fallback):
         return fallback
 
 
+YAMUX_DEFAULT_MAX_STREAMS = 512     # `yamux::Config::default()` of the yamux crate (0.13), not a constant of /repo
+
+_DUR = r"Duration::from_secs\(([^)]+)\);"
+
+
+def _str_const(rel, rx, fallback):
+    try:
+        return re.search(rx, open(os.path.join(REPO, rel)).read()).group(1)
+    except Exception:
+        return fallback
+
+
 def consts():
     return {
+        "mpd": _const("src/transport/mod.rs", r"const MAX_PARALLEL_DIALS: usize = ([^;]+);", 8),
+        "nra": _const("src/crypto/noise/mod.rs", r"const MAX_READ_AHEAD_FACTOR: usize = ([^;]+);", 5),
+        "nwb": _const("src/crypto/noise/mod.rs", r"const MAX_WRITE_BUFFER_SIZE: usize = ([^;]+);", 2),
+        "cot_ms": 1000 * _const("src/transport/mod.rs", r"const CONNECTION_OPEN_TIMEOUT: Duration = " + _DUR, 10),
+        "sot_ms": 1000 * _const("src/transport/mod.rs", r"const SUBSTREAM_OPEN_TIMEOUT: Duration = " + _DUR, 5),
+        "chan": _const("src/lib.rs", r"const DEFAULT_CHANNEL_SIZE: usize = ([^;]+);", 4096),
+        "sync": _const("src/protocol/notification/types.rs", r"const SYNC_CHANNEL_SIZE: usize = ([^;]+);", 2048),
+        "async": _const("src/protocol/notification/types.rs", r"const ASYNC_CHANNEL_SIZE: usize = ([^;]+);", 8),
+        "ping_ms": 1000 * _const("src/protocol/libp2p/ping/config.rs", r"const PING_INTERVAL: Duration = " + _DUR, 5),
+        "ping_mf": _const("src/protocol/libp2p/ping/config.rs", r"const MAX_FAILURES: usize = ([^;]+);", 3),
+        "kad_rf": _const(_KADC, r"const REPLICATION_FACTOR: usize = ([^;]+);", 20),
+        "kad_pf": _const("src/protocol/libp2p/kademlia/mod.rs", r"const PARALLELISM_FACTOR: usize = ([^;]+);", 3),
+        "kad_ttl": 1000 * _const(_KADC, r"const DEFAULT_TTL: Duration = " + _DUR, 129600),
+        "kad_mr": _const(_KADC, r"const DEFAULT_MAX_RECORDS: usize = ([^;]+);", 1024),
+        "kad_mrs": _const(_KADC, r"const DEFAULT_MAX_RECORD_SIZE_BYTES: usize = ([^;]+);", 66560),
+        "kad_mpk": _const(_KADC, r"const DEFAULT_MAX_PROVIDER_KEYS: usize = ([^;]+);", 1024),
+        "kad_mpa": _const(_KADC, r"const DEFAULT_MAX_PROVIDER_ADDRESSES: usize = ([^;]+);", 30),
+        "kad_mppk": _const(_KADC, r"const DEFAULT_MAX_PROVIDERS_PER_KEY: usize = ([^;]+);", 20),
+        "kad_pri": 1000 * _const(_KADC, r"const DEFAULT_PROVIDER_REFRESH_INTERVAL: Duration = " + _DUR, 79200),
+        "kad_pttl": 1000 * _const(_KADC, r"const DEFAULT_PROVIDER_TTL: Duration = " + _DUR, 172800),
+        "agent": _str_const("src/protocol/libp2p/identify.rs", r'const DEFAULT_AGENT: &str = "([^"]*)";', "litep2p/1.0.0"),
         "ka_default_ms": 1000 * _const("src/transport/mod.rs", r"const KEEP_ALIVE_TIMEOUT: Duration = Duration::from_secs\(([^)]+)\);", 5),
         "ping_size": _const("src/protocol/libp2p/ping/config.rs", r"const PING_PAYLOAD_SIZE: usize = ([^;]+);", 32),
         "identify_size": _const("src/protocol/libp2p/identify.rs", r"const IDENTIFY_PAYLOAD_SIZE: usize = ([^;]+);", 4096),
@@ -58,6 +94,26 @@ CONST_TABLE = [
     ("BITSWAP_MAX_MESSAGE_SIZE", "src/protocol/libp2p/bitswap/config.rs", r"pub const MAX_MESSAGE_SIZE: usize = ([^;]+);", 4194304),
     ("KEEP_ALIVE_TIMEOUT_SECS", "src/transport/mod.rs",
      r"pub\(crate\) const KEEP_ALIVE_TIMEOUT: Duration = Duration::from_secs\(([^)]+)\);", 5),
+    ("NODE_MAX_PARALLEL_DIALS", "src/transport/mod.rs", r"const MAX_PARALLEL_DIALS: usize = ([^;]+);", 8),
+    ("NODE_NOISE_READ_AHEAD", "src/crypto/noise/mod.rs", r"const MAX_READ_AHEAD_FACTOR: usize = ([^;]+);", 5),
+    ("NODE_NOISE_WRITE_BUFFER", "src/crypto/noise/mod.rs", r"const MAX_WRITE_BUFFER_SIZE: usize = ([^;]+);", 2),
+    ("NODE_CONNECTION_OPEN_TIMEOUT_SECS", "src/transport/mod.rs", r"const CONNECTION_OPEN_TIMEOUT: Duration = " + _DUR, 10),
+    ("NODE_SUBSTREAM_OPEN_TIMEOUT_SECS", "src/transport/mod.rs", r"const SUBSTREAM_OPEN_TIMEOUT: Duration = " + _DUR, 5),
+    ("NODE_DEFAULT_CHANNEL_SIZE", "src/lib.rs", r"const DEFAULT_CHANNEL_SIZE: usize = ([^;]+);", 4096),
+    ("NODE_NOTIF_SYNC_CHANNEL_SIZE", "src/protocol/notification/types.rs", r"const SYNC_CHANNEL_SIZE: usize = ([^;]+);", 2048),
+    ("NODE_NOTIF_ASYNC_CHANNEL_SIZE", "src/protocol/notification/types.rs", r"const ASYNC_CHANNEL_SIZE: usize = ([^;]+);", 8),
+    ("NODE_PING_INTERVAL_SECS", "src/protocol/libp2p/ping/config.rs", r"const PING_INTERVAL: Duration = " + _DUR, 5),
+    ("NODE_PING_MAX_FAILURES", "src/protocol/libp2p/ping/config.rs", r"const MAX_FAILURES: usize = ([^;]+);", 3),
+    ("NODE_KAD_REPLICATION_FACTOR", _KADC, r"const REPLICATION_FACTOR: usize = ([^;]+);", 20),
+    ("NODE_KAD_PARALLELISM_FACTOR", "src/protocol/libp2p/kademlia/mod.rs", r"const PARALLELISM_FACTOR: usize = ([^;]+);", 3),
+    ("NODE_KAD_DEFAULT_TTL_SECS", _KADC, r"const DEFAULT_TTL: Duration = " + _DUR, 129600),
+    ("NODE_KAD_MAX_RECORDS", _KADC, r"const DEFAULT_MAX_RECORDS: usize = ([^;]+);", 1024),
+    ("NODE_KAD_MAX_RECORD_SIZE", _KADC, r"const DEFAULT_MAX_RECORD_SIZE_BYTES: usize = ([^;]+);", 66560),
+    ("NODE_KAD_MAX_PROVIDER_KEYS", _KADC, r"const DEFAULT_MAX_PROVIDER_KEYS: usize = ([^;]+);", 1024),
+    ("NODE_KAD_MAX_PROVIDER_ADDRESSES", _KADC, r"const DEFAULT_MAX_PROVIDER_ADDRESSES: usize = ([^;]+);", 30),
+    ("NODE_KAD_MAX_PROVIDERS_PER_KEY", _KADC, r"const DEFAULT_MAX_PROVIDERS_PER_KEY: usize = ([^;]+);", 20),
+    ("NODE_KAD_PROVIDER_REFRESH_SECS", _KADC, r"const DEFAULT_PROVIDER_REFRESH_INTERVAL: Duration = " + _DUR, 79200),
+    ("NODE_KAD_PROVIDER_TTL_SECS", _KADC, r"const DEFAULT_PROVIDER_TTL: Duration = " + _DUR, 172800),
 ]
 
 
@@ -77,6 +133,11 @@ def normalize(line):
 
 # ------------------------------------------------------------------------------------------ configuration lines
 
+KAD_KEYS = ("rf", "ttl", "upd", "val", "mr", "mrs", "mpk", "mpa", "mppk", "pri", "pttl")
+TCP_KEYS = {"nd": (0, 1), "ru": (0, 1), "nra": (1, 64), "nwb": (1, 64), "cot": (1, 3600000), "sot": (1, 3600000),
+            "yms": (1, 4096), "tmpd": (1, 1000)}
+
+
 def parse_node(op):
     """`node <i> k=v…` -> configuration dict, or None if the line is not a well-formed node line."""
     t = op.split()
@@ -89,8 +150,27 @@ def parse_node(op):
         k, v = a.split("=", 1)
         kv[k] = v          # the adapter takes the last occurrence as well (HashMap collect)
     c = {"i": int(t[1]), "ka": None, "lim": None, "tcp": True, "listen": "1", "notif": [], "rr": [], "user": [], "kad": [],
-         "ping": None, "identify": False, "bitswap": False, "known": None, "exec": False}
+         "ping": None, "identify": False, "bitswap": False, "known": None, "exec": False,
+         "mpd": None, "tcpc": [], "pingf": None, "idv": None, "ida": None}
     try:
+        if "mpd" in kv:
+            c["mpd"] = int(kv["mpd"])
+            if c["mpd"] > 1000:
+                return None
+        for item in kv["tcpc"].split("/") if "tcpc" in kv else []:
+            k, v = item.split("~")
+            v = int(v)
+            lo, hi = TCP_KEYS[k]
+            if not lo <= v <= hi:
+                return None
+            c["tcpc"].append((k, v))
+        if "pingf" in kv:
+            c["pingf"] = int(kv["pingf"])
+        for k in ("idv", "ida"):
+            if k in kv:
+                if not (re.fullmatch(r"[A-Za-z0-9/._]+", kv[k]) or (k == "ida" and kv[k] == "-")):
+                    return None
+                c[k] = kv[k]
         if "ka" in kv:
             c["ka"] = int(kv["ka"])
         if "lim" in kv:
@@ -104,12 +184,19 @@ def parse_node(op):
                 return None
         for part in kv.get("notif", "").split(",") if "notif" in kv else []:
             f = part.split(":")
-            if len(f) != 5 or not f[0] or f[4] not in ("a", "y", "n"):
+            if len(f) not in (5, 8) or not f[0] or f[4] not in ("a", "y", "n"):
                 return None
             if f[2] != "-" and (len(f[2]) % 2 or not re.fullmatch(r"[0-9a-fA-F]*", f[2])):
                 return None
+            sync, asyn, dial = 64, 64, None
+            if len(f) == 8:
+                sync, asyn = (None if x == "-" else int(x) for x in f[5:7])
+                if any(x is not None and not 1 <= x <= 100000 for x in (sync, asyn)) or f[7] not in ("-", "0", "1"):
+                    return None
+                dial = None if f[7] == "-" else f[7] == "1"
             c["notif"].append({"name": f[0], "max": int(f[1]), "hs": "-" if f[2] == "-" else f[2].lower(),
-                               "fb": [] if f[3] in ("-", "") else f[3].split("+"), "mode": f[4]})
+                               "fb": [] if f[3] in ("-", "") else f[3].split("+"), "mode": f[4],
+                               "ext": len(f) == 8, "sync": sync, "async": asyn, "dial": dial})
         for part in kv.get("rr", "").split(",") if "rr" in kv else []:
             f = part.split(":")
             if len(f) != 5 or not f[0]:
@@ -122,8 +209,24 @@ def parse_node(op):
                 return None
             c["user"].append({"name": name, "codec": codec})
         for part in kv.get("kad", "").split(",") if "kad" in kv else []:
-            names, mx = part.split(":")
-            c["kad"].append({"names": [] if names == "d" else names.split("+"), "max": None if mx == "-" else int(mx)})
+            f = part.split(":")
+            if len(f) not in (2, 3):
+                return None
+            names, mx = f[0], f[1]
+            opts = []
+            for item in f[2].split("/") if len(f) == 3 else []:
+                k, v = item.split("~")
+                if k not in KAD_KEYS:
+                    return None
+                if k in ("upd", "val"):
+                    if v not in ("m", "a"):
+                        return None
+                    opts.append((k, v))
+                else:
+                    if int(v) > 1000000000 or not v.isdigit():
+                        return None
+                    opts.append((k, int(v)))
+            c["kad"].append({"names": [] if names == "d" else names.split("+"), "max": None if mx == "-" else int(mx), "opts": opts})
         if "ping" in kv and kv["ping"] != "0":
             c["ping"] = int(kv["ping"])
         c["identify"] = kv.get("identify") == "1"
@@ -149,8 +252,18 @@ def render_node(c):
         a.append("tcp=0")
     if c.get("listen", "1") != "1":
         a.append(f"listen={c['listen']}")
+    if c.get("mpd") is not None:
+        a.append(f"mpd={c['mpd']}")
+    if c.get("tcpc"):
+        a.append("tcpc=" + "/".join(f"{k}~{v}" for k, v in c["tcpc"]))
     if c.get("notif"):
-        a.append("notif=" + ",".join(f"{p['name']}:{p['max']}:{p['hs']}:{'+'.join(p['fb']) or '-'}:{p['mode']}" for p in c["notif"]))
+        def ext(p):
+            if not p.get("ext"):
+                return ""
+            d = p.get("dial")
+            return ":" + ":".join(["-" if p.get("sync") is None else str(p["sync"]), "-" if p.get("async") is None else str(p["async"]),
+                                   "-" if d is None else str(int(d))])
+        a.append("notif=" + ",".join(f"{p['name']}:{p['max']}:{p['hs']}:{'+'.join(p['fb']) or '-'}:{p['mode']}{ext(p)}" for p in c["notif"]))
     if c.get("rr"):
         a.append("rr=" + ",".join(f"{p['name']}:{p['max']}:{p['timeout']}:{'+'.join(p['fb']) or '-'}:"
                                   f"{'-' if p['maxin'] is None else p['maxin']}" for p in c["rr"]))
@@ -158,10 +271,17 @@ def render_node(c):
         a.append("user=" + ",".join(f"{p['name']}:{p['codec']}" for p in c["user"]))
     if c.get("ping"):
         a.append(f"ping={c['ping']}")
+    if c.get("pingf") is not None:
+        a.append(f"pingf={c['pingf']}")
     if c.get("identify"):
         a.append("identify=1")
+    for k in ("idv", "ida"):
+        if c.get(k) is not None:
+            a.append(f"{k}={c[k]}")
     if c.get("kad"):
-        a.append("kad=" + ",".join(f"{'+'.join(k['names']) or 'd'}:{'-' if k['max'] is None else k['max']}" for k in c["kad"]))
+        def kopts(k):
+            return (":" + "/".join(f"{a_}~{v}" for a_, v in k["opts"])) if k.get("opts") else ""
+        a.append("kad=" + ",".join(f"{'+'.join(k['names']) or 'd'}:{'-' if k['max'] is None else k['max']}{kopts(k)}" for k in c["kad"]))
     if c.get("bitswap"):
         a.append("bitswap=1")
     if c.get("known") is not None:
@@ -216,6 +336,43 @@ def registrations(c, K=None):
     return [regs[k] for k in sorted(regs)]
 
 
+def _dedup(items):
+    d = {}
+    for p in items:
+        d[p["name"]] = p
+    return list(d.values())
+
+
+def config_notes(c, K):
+    """What every protocol object must hold once constructed (`<kind>|<canonical text>`), from the configuration alone."""
+    b = lambda x: "true" if x else "false"  # noqa: E731
+    ch = K["chan"]
+    res = []
+    for p in _dedup(c["notif"]):
+        sync = K["sync"] if p.get("sync", 64) is None else p.get("sync", 64)
+        asyn = K["async"] if p.get("async", 64) is None else p.get("async", 64)
+        dial = True if p.get("dial") is None else p["dial"]
+        res.append(f"notif|{p['name']},sync={sync},async={asyn},auto={b(p['mode'] == 'a')},dial={b(dial)},hs={p['hs']},cap={ch}/{ch}")
+    for p in _dedup(c["rr"]):
+        res.append(f"rr|{p['name']},to={p['timeout']},maxin={'-' if p['maxin'] is None else p['maxin']},cap={ch}/{ch}")
+    if c["ping"]:
+        res.append(f"ping|int={K['ping_ms'] if c['ping'] == 1 else c['ping']},mf={K['ping_mf'] if c.get('pingf') is None else c['pingf']},cap={ch}")
+    for k in c["kad"]:
+        o = dict(k.get("opts") or [])
+        mode = lambda v: "Manual" if v == "m" else "Automatic"  # noqa: E731
+        rf = o.get("rf", K["kad_rf"])
+        res.append(f"kad|rf={rf}/{rf},pf={K['kad_pf']},ttl={o.get('ttl', K['kad_ttl'])},upd={mode(o.get('upd', 'a'))},"
+                   f"val={mode(o.get('val', 'a'))},mr={o.get('mr', K['kad_mr'])},mrs={o.get('mrs', K['kad_mrs'])},"
+                   f"mpk={o.get('mpk', K['kad_mpk'])},mpa={o.get('mpa', K['kad_mpa'])},mppk={o.get('mppk', K['kad_mppk'])},"
+                   f"pri={o.get('pri', K['kad_pri'])},pttl={o.get('pttl', K['kad_pttl'])}")
+    if c["identify"]:
+        ida = c.get("ida")
+        res.append(f"identify|pv={c.get('idv') or '/verif/1'},ua={'verif' if ida is None else (K['agent'] if ida == '-' else ida)},own=true,cap={ch}")
+    if c["bitswap"]:
+        res.append(f"bitswap|cap={ch}/{ch}")
+    return res
+
+
 def expected_record(cfgs, i, K=None):
     """The registration record of node i predicted from the configurations (independent of the Lean model)."""
     K = K or consts()
@@ -234,10 +391,19 @@ def expected_record(cfgs, i, K=None):
             # one with another peer id or another transport is refused: only l<k> and x are stored
             if kind[0] == "l":
                 known.setdefault(j, set()).add(f"{j}.{kind[1:]}/p{j}")
-            elif kind == "x":
-                known.setdefault(j, set()).add(f"x/p{j}")
+            elif kind == "x" or re.fullmatch(r"x[2-9]|d[1-9]", kind):
+                known.setdefault(j, set()).add(f"{kind}/p{j}")
     names = sorted({x for r in regs for x in [r[0]] + r[3]})
+    owner = {x: r for r in regs for x in [r[0]] + r[3]}
+    tcpc = dict(c.get("tcpc") or [])    # the last setting of a field wins
+    tcp = (f"mpd={K['mpd'] if c.get('mpd') is None else max(1, c['mpd'])},reuse={'true' if tcpc.get('ru', 1) else 'false'},"
+           f"nodelay={'true' if tcpc.get('nd', 0) else 'false'},nra={tcpc.get('nra', K['nra'])},nwb={tcpc.get('nwb', K['nwb'])},"
+           f"cot={tcpc.get('cot', K['cot_ms'])},sot={tcpc.get('sot', K['sot_ms'])},left=0,"
+           f"yms={tcpc.get('yms', YAMUX_DEFAULT_MAX_STREAMS)},ymsame=true")
     return {
+        "pset": ";".join(f"{x}>{owner[x][1]}>{owner[x][2]}" for x in names),
+        "tcp": tcp,
+        "cfg": ";".join(sorted(config_notes(c, K))),
         "id": "ok",
         "listen": ",".join(f"{d}:own" for d in digits),
         "mlisten": ",".join(sorted([f"{i}.{k}" for k in range(len(digits))] + [f"{i}.{k}/p{i}" for k in range(len(digits))])),
@@ -342,6 +508,29 @@ def rand_cfg(rng, i, n_prev=0, rich=True, ka=None):
         if not c["known"] and rng.random() < 0.5:
             c["known"] = None
     c["exec"] = rng.random() < 0.3
+    # the plumbing of everything else the builders take
+    if rng.random() < 0.4:
+        c["mpd"] = rng.choice([0, 1, 1, 2, 8, 9, 64])
+    if rng.random() < 0.4:
+        keys = rng.sample(sorted(TCP_KEYS), rng.choice([1, 2, 3, 8]))
+        pick = {"nd": [0, 1], "ru": [0, 1], "nra": [1, 4, 5, 6, 64], "nwb": [1, 2, 3, 64], "cot": [1, 999, 10000, 10001, 3600000],
+                "sot": [1, 4999, 5000, 5001], "yms": [1, 256, 512, 513, 4096], "tmpd": [1, 3, 8, 1000]}
+        c["tcpc"] = [(k, rng.choice(pick[k])) for k in keys]
+    for p in c["notif"]:
+        if rng.random() < 0.5:
+            p.update({"ext": True, "sync": rng.choice([None, 1, 16, 2048, 2049]), "async": rng.choice([None, 1, 8, 9, 64]),
+                      "dial": rng.choice([None, True, False])})
+    for k in c["kad"]:
+        if rng.random() < 0.7:
+            pick = {"rf": [1, 3, 19, 20, 21], "ttl": [1, 1000, 129600000, 129600001], "upd": ["m", "a"], "val": ["m", "a"],
+                    "mr": [0, 0, 1, 2, 1024, 1025], "mrs": [0, 0, 1, 66560, 66561], "mpk": [0, 0, 1, 1024, 1025], "mpa": [0, 0, 1, 30, 31],
+                    "mppk": [0, 0, 1, 20, 21], "pri": [1, 79200000, 79200001], "pttl": [1, 172800000, 172800001]}
+            k["opts"] = [(key, rng.choice(pick[key])) for key in rng.sample(KAD_KEYS, rng.choice([1, 2, 4, 11]))]
+    if c["ping"] and rng.random() < 0.5:
+        c["pingf"] = rng.choice([0, 1, 3, 4, 100])
+    if c["identify"] and rng.random() < 0.5:
+        c["idv"] = rng.choice(["/verif/1", "/my/2.0", "v"])
+        c["ida"] = rng.choice(["-", "agent_x/1.0", "verif"])
     r = rng.random()
     if r < 0.03:
         # name clashes: `register_protocol` refuses them (assert / panic), the model says so
@@ -633,6 +822,11 @@ def fixed_cases():
         # defaults: nothing configured but a transport
         ["node 0", "node 1 tcp=0", "node 2 listen=0"],
         ["node 0 kad=/k/1+/k/old:1024,/k/2:- user=/u/a:un ping=5000"],
+        # everything the protocol and transport builders take, at non-default values; zero store bounds
+        ["node 0 ka=700 mpd=1 tcpc=nd~1/ru~0/nra~3/nwb~4/cot~2500/sot~1500/yms~100/tmpd~5 "
+         "notif=/n/a:1024:0102:/n/a0:a:7:9:0,/n/b:64:-:-:y:-:-:- rr=/r/a:256:800:/r/old:3 ping=250 pingf=7 identify=1 idv=/my/2.0 ida=agent_x/1.0 "
+         "kad=d:-:rf~3/ttl~1000/upd~m/val~m/mr~0/mrs~0/mpk~0/mpa~0/mppk~0/pri~5000/pttl~7000,/k/2:2048:mr~1/mppk~1 bitswap=1",
+         "node 1 mpd=0 identify=1 ida=- ping=1 pingf=0 kad=d:-"],
     ]
 
 
@@ -710,10 +904,13 @@ def oracle_wiring(case, out):
                             ("mlisten", "the listen addresses registered with the manager"),
                             ("tr", "the installed transports"),
                             ("exec", "the number of event loops handed to the configured executor"),
+                            ("pset", "what a connection's ProtocolSet answers per main/fallback name (name>framing codec>keep-alive)"),
+                            ("tcp", "the configuration the TCP transport was constructed with"),
+                            ("cfg", "what the constructed protocol objects hold (kind|settings)"),
                             ("id", "the local peer id")):
             if got.get(field) != want[field]:
                 detail = ""
-                if field in ("svc", "regs"):
+                if field in ("svc", "regs", "pset", "cfg"):
                     g = set(got.get(field, "").split(";"))
                     w = set(want[field].split(";"))
                     detail = f" (unexpected: {sorted(g - w)}; missing: {sorted(w - g)})"
